@@ -104,9 +104,34 @@ def do_check(names):
             print(name, "CAUGHT" if caught else "MISSED", lines[:2])
     finally:
         sh(f"git -C /repo worktree remove --force {repo}")
-    with open(os.path.join(SEEDED, "RESULTS.md"), "a") as f:
+    write_results()
+
+
+def write_results():
+    """RESULTS.md is regenerated from the check_result recorded in every seeded/<name>/meta.json"""
+    rows = []
+    for d in sorted(glob.glob(os.path.join(SEEDED, "*-*m*"))):
+        mp = os.path.join(d, "meta.json")
+        if not os.path.exists(mp):
+            continue
+        m = json.load(open(mp))
+        cr = m.get("check_result")
+        if not cr:
+            continue
+        rows.append((os.path.basename(d), m["property"], (m.get("summary", "").replace("|", "/")[:170] + " — NEEDS: " + str(m.get("needs", "")).replace("|", "/")[:170]), cr["caught"], cr.get("with_concrete_input"),
+                     "; ".join(sorted(set(l.split("replays/")[-1].split(".json")[0].rsplit("-", 1)[0] for l in cr.get("lines", []) if l.startswith("VIOLATION"))))))
+    caught = sum(1 for r in rows if r[3])
+    conc = sum(1 for r in rows if r[4])
+    with open(os.path.join(SEEDED, "RESULTS.md"), "w") as f:
+        f.write("# Seeded changes: what the quick checks report\n\n")
+        f.write("Each row is a change produced by an independent sub-agent that saw only the property text and a scratch worktree of the repository "
+                "(round 1: `<ID>-m<i>`, round 2: `<ID>-r2m<i>`). It compiles, passes the repository's own tests, and its demonstration test "
+                "(`seeded/<name>/demo_test.go`) fails with the change and passes without. Result of `git apply seeded/<name>/patch.diff` in an isolated "
+                "worktree followed by `./check <ID> --tier quick` (tools/run_seeded.py check).\n\n")
+        f.write(f"**{caught} of {len(rows)} caught; {conc} with a concrete failing input, {caught - conc} by a broken obligation/correspondence only.**\n\n")
+        f.write("| change | property | what was changed and what it needs to manifest | result | how | reported as |\n|---|---|---|---|---|---|\n")
         for r in rows:
-            f.write(f"| {r[0]} | {r[1]} | {r[2]} | {'caught' if r[3] else 'MISSED'} | {'concrete input' if r[4] else ('obligation/correspondence only' if r[3] else '-')} |\n")
+            f.write(f"| {r[0]} | {r[1]} | {r[2]} | {'caught' if r[3] else 'MISSED'} | {'concrete input' if r[4] else ('obligation/correspondence only' if r[3] else '-')} | {r[5]} |\n")
 
 
 if __name__ == "__main__":
@@ -114,3 +139,5 @@ if __name__ == "__main__":
         do_import(sys.argv[2], sys.argv[3], sys.argv[4] if len(sys.argv) > 4 else "")
     elif sys.argv[1] == "check":
         do_check(sys.argv[2:])
+    elif sys.argv[1] == "results":
+        write_results()
